@@ -14,7 +14,10 @@ import (
 // are observable.
 var (
 	tag1 = g.Instruction{Op: g.ADD, OpMode: g.AB, AMode: g.IMMEDIATE, BMode: g.B_INDIRECT}
-	tag2 = g.Instruction{Op: g.JMZ, OpMode: g.X, AMode: g.B_DECREMENT, BMode: g.A_INDIRECT}
+	// second-step variant of the neighbours: immediate operands in either position
+	tag1imm = g.Instruction{Op: g.ADD, OpMode: g.F, AMode: g.B_INCREMENT, BMode: g.IMMEDIATE}
+	tag2imm = g.Instruction{Op: g.SNE, OpMode: g.X, AMode: g.IMMEDIATE, BMode: g.A_DECREMENT}
+	tag2    = g.Instruction{Op: g.JMZ, OpMode: g.X, AMode: g.B_DECREMENT, BMode: g.A_INDIRECT}
 )
 
 // tagSchemes returns the (tag of cell PC+1, tag of cell PC+2) pairs used for
@@ -22,6 +25,9 @@ var (
 // neighbours that are equal or differ in exactly one component.
 func tagSchemes(f int) [][2]g.Instruction {
 	out := [][2]g.Instruction{{tag1, tag2}}
+	if TwoSteps {
+		out = append(out, [2]g.Instruction{tag1imm, tag2imm})
+	}
 	op, md, _, _ := hx.Form(f)
 	if md == g.I && (op == g.MOV || op == g.CMP || op == g.SEQ || op == g.SNE) {
 		v := tag1
@@ -71,6 +77,7 @@ func Background(k int, M uint64) []g.Instruction {
 
 // Run enumerates the spaces of the tier. deadline bounds the run (zero: none).
 func Run(rep *hx.Report, props Props, tier string, sh hx.Shard, deadline time.Time) {
+	TwoSteps = props.C01 && !props.C15
 	ck := &Checker{Rep: rep, Props: props}
 	expired := func() bool {
 		if !deadline.IsZero() && time.Now().After(deadline) {
@@ -92,7 +99,7 @@ func Run(rep *hx.Report, props Props, tier string, sh hx.Shard, deadline time.Ti
 	if props.C04 && !thorough {
 		ps = []uint64{1, 2}
 	}
-	rep.Bound = fmt.Sprintf("S1: M=3 all forms x 9 fields x 81 neighbour fields x R,W in 1..3 x P in %v x PC in %v", ps, pcs)
+	rep.Bound = fmt.Sprintf("S1: M=3 all forms x 9 fields x 81 neighbour fields x R,W in 1..3 x P in %v x PC in %v (for C01 every state is followed by a second step on the same simulator, with a second set of neighbour tags that have immediate operands)", ps, pcs)
 	{
 		const M = 3
 		st := &State{M: M, Core: make([]g.Instruction, M)}
@@ -192,7 +199,7 @@ func Run(rep *hx.Report, props Props, tier string, sh hx.Shard, deadline time.Ti
 	}
 
 	// S3: large cores (field arithmetic far above 16 bits: 8000, 55440 and 2^20 cells).
-	if props.C01 || props.C04 {
+	if props.C01 || props.C04 || props.C11 {
 		larges := []uint64{8000, 100003}
 		if thorough {
 			larges = []uint64{8000, 55440, 100003, 1 << 20, 1000003}
@@ -235,6 +242,12 @@ func Run(rep *hx.Report, props Props, tier string, sh hx.Shard, deadline time.Ti
 					for _, a := range vals {
 						for _, b := range vals {
 							st.Core[pc] = hx.Mk(f, a, b)
+							st.R, st.W = M, M
+							if (a+b)%3 == 1 {
+								st.R, st.W = M/2-1750, M/2-1750 // limits below the core size (48251 for M=100003)
+							} else if (a+b)%3 == 2 {
+								st.R, st.W = M/2+1, M-2
+							}
 							// the cells the operands can reach get large fields too
 							for _, t := range []uint64{a, b} {
 								c := (pc + t) % M
@@ -254,7 +267,7 @@ func Run(rep *hx.Report, props Props, tier string, sh hx.Shard, deadline time.Ti
 			}
 			rep.Sample(st.String())
 		}
-		rep.Bound += fmt.Sprintf("; S3: M in %v, PC at the last cell (thorough: also the first), forms x 81 field pairs from {0,1,2,M/2,M/2+1,M-2,M-1,46341,65536} with large fields in the operand cells; for M >= 100003 five values whose products exceed 2^32 (quick: arithmetic opcodes only)", larges)
+		rep.Bound += fmt.Sprintf("; S3: M in %v, PC at the last cell (thorough: also the first), forms x 81 field pairs from {0,1,2,M/2,M/2+1,M-2,M-1,46341,65536} with large fields in the operand cells, limits (M,M), (M/2-1750,M/2-1750) and (M/2+1,M-2) in rotation; for M >= 100003 five values whose products exceed 2^32 (quick: arithmetic opcodes only)", larges)
 	}
 
 	if !thorough {
